@@ -3,7 +3,7 @@ C08  Timers measure elapsed tyme exactly and restart losslessly.
 """
 from fractions import Fraction
 from .. import sched
-from ..core import Result, digest
+from ..core import Result, digest, HarnessError
 from hio.base import tyming
 from hio.help import timing as htiming
 
@@ -40,7 +40,7 @@ def close(a, b):
 def tymer_case(tape, tier, res):
     maxops = 30 if tier == "quick" else 80
     now = [tape.pick("t0", [0.0, 1.5, 100.1])]
-    tymth = lambda: now[0]
+    tymth = (lambda b: (lambda: b[0]))(now)     # bound to this list: after wind() the old closure must be stale
     d0 = tape.pick("dur0", DURS)
     s0 = tape.pick("start0", [None, None, 0.0, 5.0, -1.0])
     tymer = tyming.Tymer(tymth=tymth, duration=d0, start=s0)
@@ -111,7 +111,7 @@ def tymer_case(tape, tier, res):
         if not ok_f:
             xt = Fraction(t)
             ok_x = (close(el, xt - x_start) and close(rem, x_stop - xt) and close(du, x_stop - x_start)
-                    and (ex == (xt >= x_stop) or close(xt, x_stop)))
+                    and ex in (t >= m_stop, xt >= x_stop))     # float or exact reading of "now >= stop", nothing else
             if not ok_x:
                 res.violate("tymer-arithmetic", "at tyme %r after %s: elapsed %r remaining %r expired %r duration %r; model start %r "
                             "stop %r -> elapsed %r remaining %r expired %r" % (
@@ -209,8 +209,24 @@ def mono_case(tape, tier, res):
 
 def run_case(tape, tier):
     res = Result()
-    if tape.draw("kind", 2) == 0:
-        tymer_case(tape, tier, res)
-    else:
-        mono_case(tape, tier, res)
+    kind = tape.draw("kind", 2)
+    try:
+        if kind == 0:
+            tymer_case(tape, tier, res)
+        else:
+            mono_case(tape, tier, res)
+    except HarnessError:
+        raise
+    except Exception as ex:
+        # the harness parts of these cases are plain arithmetic; an exception here comes out of the timer under test
+        import traceback
+        tb = traceback.extract_tb(ex.__traceback__)
+        where = next((f for f in reversed(tb) if "/hio/" in f.filename), tb[-1])
+        res.violate("timer-raised", "%s raised %s: %s (in %s:%d %s)" % (
+            "Tymer" if kind == 0 else "MonoTimer", type(ex).__name__, str(ex)[:120], where.filename.split("/")[-1], where.lineno, where.name))
+        if res.scenario is None:
+            res.scenario = lambda: dict(kind="tymer" if kind == 0 else "monotimer", raised=type(ex).__name__)
+        if not res.scen_digest:
+            res.scen_digest = digest(["raised", kind, str(ex)[:80]])
+            res.event_digest = res.scen_digest
     return res
